@@ -25,7 +25,7 @@ class SingleAssignmentDisposable(DisposableBase):
         return self.current
 
     def set_disposable(self, value: DisposableBase) -> None:
-        if self.current:
+        if self.current is not None:
             raise Exception("Disposable has already been assigned")
 
         with self.lock:
@@ -33,7 +33,7 @@ class SingleAssignmentDisposable(DisposableBase):
             if not should_dispose:
                 self.current = value
 
-        if self.is_disposed and value:
+        if self.is_disposed and value is not None:
             value.dispose()
 
     disposable = property(get_disposable, set_disposable)
